@@ -219,3 +219,16 @@ Proof.
   cbn [p_rd32 p_rd8].
   leaf_auto.
 Qed.
+
+Lemma leaf_example :
+  pow2_16 8 /\ wf_buf (of_list [4; 0; 0; 0; 3; 0; 0; 0; 97; 98; 99; 0]) /\
+  td_range {| t_o := 0; t_end := 20; t_ttl := 99; t_vtable := 0; t_table := 8; t_tsize := 12; t_vsize := 8 |} /\
+  c_check_header 12 0 4 = 1 /\ c_check_header 7 0 4 = 0 /\
+  c_verify_string (ptr_of (of_list [4; 0; 0; 0; 3; 0; 0; 0; 97; 98; 99; 0]) 0 0) 12 0 4 = Some 0 /\
+  c_verify_string (ptr_of (of_list [4; 0; 0; 0; 4; 0; 0; 0; 97; 98; 99; 0]) 0 0) 12 0 4 = Some E_string_out_of_range.
+Proof.
+  split; [unfold pow2_16; cbn [In]; tauto|].
+  split; [apply of_list_wf|].
+  split; [unfold td_range, in_u32, in_u16; cbn; lia|].
+  repeat split; vm_compute; reflexivity.
+Qed.
